@@ -379,6 +379,7 @@ int create_array_op(World &w, const Op &op) {
     m.dtype = dt; m.extent = ext; m.smallints = r.chance(2, 3); m.has_origin = false; m.origin = 0;
     if (dt == DataType::String) m.strs.assign(m.nelms(), ""); else m.raw.assign(m.nelms() * dtype_size(dt), '\0');
     std::string id = x.id();
+    if (w.live.size() < 48) { Kept k; k.kind = 1; k.id = id; k.session = w.session; k.array = x; w.live["1:" + id] = k; }   // the creating handle lives on
     w.arr[id] = m;
     w.dims[id] = std::vector<DimModel>();
     w.cnt.inc("array.create." + dtype_name(dt));
